@@ -969,7 +969,7 @@ class Executor:
         offs = z3.simplify(p.off).sexpr() if isinstance(
             p.off, z3.ExprRef) else str(p.off)
         tag = hashlib.md5(offs.encode()).hexdigest()[:10]
-        lname = 'mem_%s[%s]v%d' % (r.name, tag, ver)
+        lname = 'mem_%s.%d[%s]v%d' % (r.name, r.uid, tag, ver)
         if t.kind == 'int':
             ck = ('memval', r.uid, offs, sz, ver)
             hit = st.ghost.get(ck)
